@@ -489,11 +489,12 @@ func init() {
 			diag: regexp.MustCompile(`undefined: (raw|reflect|strings|mapstructure)`)},
 		genFinding{sig: "ext-import-unused",
 			trigger: func(root *sg.Schema, _ []string) bool {
-				return anyNode(root, func(x *sg.Schema) bool { return x.Ext != nil && (x.HasEnum || x.Ref != "") })
+				// only on enum schemas: next to a $ref the custom type is used (type X url.URL) and so is its import
+				return anyNode(root, func(x *sg.Schema) bool { return x.Ext != nil && x.HasEnum })
 			},
 			neutralise: func(root *sg.Schema) {
 				root.Walk(func(x *sg.Schema) {
-					if x.Ext != nil && (x.HasEnum || x.Ref != "") {
+					if x.Ext != nil && x.HasEnum {
 						x.Ext = nil
 					}
 				})
@@ -633,6 +634,11 @@ func c01(ctx *Ctx) (*Outcome, error) {
 		}
 		g := sg.NewGen(r, o)
 		root := g.Root()
+		if i%25 == 10 {
+			sc := suffixLookalikeCase(i / 25)
+			cases = append(cases, &c01Case{root: sc.Root, args: without(RandArgs(r, sc.Root), "--capitalization", true), tag: "clean"})
+			continue
+		}
 		if i%25 == 9 {
 			ic := identifierCollisionCase(i / 25)
 			cases = append(cases, &c01Case{root: ic.Root, args: RandArgs(r, ic.Root), tag: "clean"})
@@ -662,7 +668,7 @@ func c01(ctx *Ctx) (*Outcome, error) {
 		if r.Chance(0.3) {
 			root.Desc = sg.PickOf(r, HostileTexts)
 		}
-		if r.Chance(0.2) {
+		if r.Chance(0.25) {
 			addExtension(r, root)
 		}
 		cases = append(cases, &c01Case{root: root, args: RandArgs(r, root), tag: "clean"})
@@ -864,6 +870,11 @@ func addExtension(r *sg.Rng, root *sg.Schema) {
 		return
 	}
 	p := root.Props[r.IntN(len(root.Props))].S
+	if p.Ref != "" && !p.HasDefault && r.Chance(0.7) {
+		// a custom type next to a reference (property position): the custom type wins, its import is used
+		p.Ext = jsonx.Obj{{K: "type", V: "url.URL"}, {K: "imports", V: []any{"net/url"}}}
+		return
+	}
 	if p.Ref != "" || p.HasEnum || p.HasDefault {
 		return
 	}
